@@ -14,6 +14,7 @@ package quic
 
 import (
 	"context"
+	"encoding/json"
 	"fmt"
 	"hash/fnv"
 	"log/slog"
@@ -22,6 +23,8 @@ import (
 	"sync"
 	"testing/synctest"
 	"time"
+
+	"golang.org/x/net/internal/zzverif/vx"
 )
 
 var (
@@ -555,4 +558,40 @@ func (p *c19Pair) serverConns() []*Conn {
 		cs = append(cs, c)
 	}
 	return cs
+}
+
+// c19Sharded wraps a case generator so that a case is owned by the shard its
+// *content* hashes to, not by its position in the enumeration. The datagram
+// count N of a default run is measured by every shard process itself and is
+// not perfectly deterministic (goroutine scheduling inside the endpoints can
+// shift it by one), so positions may differ between shards; content
+// ownership keeps the partition consistent. vx assigns case index i to shard
+// i % n, therefore the wrapper yields zero-value fillers at indices it does
+// not own (vx skips those without executing them) until the next index is
+// its own.
+func c19Sharded[T any](c *vx.Ctx, inner func(yield func(T) bool)) func(yield func(T) bool) {
+	return func(yield func(T) bool) {
+		shard, n := c.Shard()
+		if n <= 1 {
+			inner(yield)
+			return
+		}
+		var i int64
+		var zero T
+		inner(func(x T) bool {
+			b, _ := json.Marshal(x)
+			if int(vx.Hash64(string(b))%uint64(n)) != shard {
+				return true
+			}
+			for int(i%int64(n)) != shard {
+				if !yield(zero) {
+					return false
+				}
+				i++
+			}
+			ok := yield(x)
+			i++
+			return ok
+		})
+	}
 }
